@@ -27,8 +27,8 @@ import vlib, renderlib as rl
 from vlib import Inconclusive, log
 
 TIERS = {
-    "quick": dict(gen="MC_RenderGen_c05.cfg", gen_timeout=600, mc_workers=5, n=9, m=4, children=2, reuse=4,
-                  part_gen="MC_RenderGen_c05part.cfg", part_n=3),
+    "quick": dict(gen="MC_RenderGen_c05.cfg", gen_timeout=600, mc_workers=5, n=6, m=4, children=2, reuse=3,
+                  part_gen="MC_RenderGen_c05part.cfg", part_n=2),
     "thorough": dict(gen="MC_RenderGen_c05_thorough.cfg", gen_timeout=1800, mc_workers=8, n=50, m=16, children=2, reuse=12,
                      part_gen="MC_RenderGen_c05part_thorough.cfg", part_n=8),
 }
